@@ -39,7 +39,9 @@ CONSTANTS MaxOps,      \* history length bound
           NoRepeat,    \* TRUE: an operation is never repeated with identical arguments
           CheckRestore,\* FALSE: Restore's own "decoded = saved" comparison is not made (mutant runs:
                        \* the loss must then be noticed through behaviour alone)
-          Mutant       \* "none" or the component a Restore loses
+          Mutant,      \* "none", the component a Restore loses, or "restore_swaps_index_pair"
+          Nondegenerate \* does the circuit hold two DIFFERENT values in every index pair of its data?
+                       \* (a lookup table spanning several LookupTableGate rows: first_lut_gate # last_lut_gate)
 
 VARIABLES reps, blobs, proofs, hist, bad, nused
 vars == <<reps, blobs, proofs, hist, bad, nused>>
@@ -50,9 +52,15 @@ VerifierOnly == {"cap", "vdigest"}
 Held(kind) == CASE kind = "F" -> Common \cup ProverOnly \cup VerifierOnly
                 [] kind = "P" -> Common \cup ProverOnly
                 [] kind = "V" -> Common \cup VerifierOnly
-Mutants == {"none"} \cup Common \cup ProverOnly \cup VerifierOnly
-ASSUME Mutant \in Mutants
-Lost == IF Mutant = "none" THEN {} ELSE {Mutant}
+Mutants == {"none", "restore_swaps_index_pair"} \cup Common \cup ProverOnly \cup VerifierOnly
+ASSUME Mutant \in Mutants /\ Nondegenerate \in BOOLEAN
+\* A Restore that exchanges the two members of an index pair (LookupWire.first_lut_gate / last_lut_gate in
+\* read_prover_only_circuit_data) damages the component only if the members differ: on a degenerate
+\* circuit the exchange is the identity and NO history can expose it.  The replay therefore has to
+\* contain circuits of the non-degenerate class (bin/lib/c17.py: field-witness guard).
+Lost == CASE Mutant = "none" -> {}
+          [] Mutant = "restore_swaps_index_pair" -> IF Nondegenerate THEN {"lookuprows"} ELSE {}
+          [] OTHER -> {Mutant}
 
 \* ---- what each observation depends on ------------------------------------------------------
 CanProve(r)   == r.kind \in {"F", "P"}
